@@ -43,6 +43,7 @@ type syncScn struct {
 	Jitter   int64           `json:"jitter"`         // lib: seed of random yields / micro-sleeps in transport operations (0: none)
 	Flip     int64           `json:"flip"`           // lib: flip one bit of the sender->receiver stream at this offset (0: none)
 	Wire     bool            `json:"wire"`           // lib (pull): record the action-level trace of the session (SessionWire.tla)
+	Full     bool            `json:"full"`           // lib, libpush: record the complete session transcript (RsyncTrace.tla)
 	Echo     json.RawMessage `json:"echo,omitempty"` // passed through (opts, rules, ... for the trace spec)
 }
 
@@ -67,6 +68,7 @@ type syncObs struct {
 	Echo     json.RawMessage `json:"echo,omitempty"`
 	Log      string          `json:"log,omitempty"`
 	Wire     *wireObs        `json:"wire,omitempty"`
+	Full     *fullObs        `json:"fullwire,omitempty"`
 	Retire   bool            `json:"retire_worker,omitempty"` // a hung session's goroutines are still parked in this worker
 }
 
@@ -260,12 +262,21 @@ func syncHandler(w *workerCtx, line []byte) (any, error) {
 			}
 		case "lib", "libpush":
 			var rec *wireRec
-			if s.Wire && s.Arr == "lib" {
+			if (s.Wire && s.Arr == "lib") || s.Full {
 				rec = newWireRec()
 			}
 			rerr = runLib(logb, &s, srcArg, ddir, rec)
-			if rec != nil && rerr == nil {
+			if rec != nil && rerr == nil && s.Wire && s.Arr == "lib" {
 				obs.Wire = rec.analyse(wirekit.ListOpts{})
+			}
+			if rec != nil && rerr == nil && s.Full {
+				var e struct {
+					Opts map[string]bool `json:"opts"`
+				}
+				json.Unmarshal(s.Echo, &e)
+				o := e.Opts
+				obs.Full = rec.analyseFull(s.Arr == "libpush", fullOpts{Dry: o["n"], Del: o["del"],
+					List: wirekit.ListOpts{UID: o["o"], GID: o["g"], Links: o["l"], Devices: o["dv"], Specials: o["sp"], Checksum: o["c"]}})
 			}
 		default:
 			return "harness", "unknown arrangement " + s.Arr
